@@ -70,3 +70,39 @@ def v_eager(*args, **kwargs):
 def v_lazy(*args, **kwargs):
     LOG.append(("VLazy", _next(), copy.deepcopy(args), copy.deepcopy(kwargs)))
     return ("lazy", args, kwargs)
+
+
+# position-specific classes VPool<i>, VDeco<i>, VCtrl<i>, VFail<i> (PEP 562): the construction log
+# then says WHICH element of a pipeline was constructed even when it has no arguments
+_cache = {}
+
+
+def __getattr__(name):
+    for prefix, base in (("VPool", VPool), ("VDeco", VDeco), ("VCtrl", VCtrl), ("VFail", VFail)):
+        if name.startswith(prefix) and name[len(prefix):].isdigit():
+            if name not in _cache:
+                pos = int(name[len(prefix):])
+                kind = prefix
+
+                if base is VFail:
+                    def __init__(self, target, *args, _pos=pos, **kwargs):
+                        LOG.append(("VFail-failed", _pos, args, kwargs))
+                        raise KeyError("VFail%d always fails" % _pos)
+                elif base is VPool:
+                    def __init__(self, *args, _pos=pos, _kind=kind, **kwargs):
+                        self.pos, self.args, self.kwargs, self.target = _pos, args, kwargs, None
+                        if kwargs.get("fail"):
+                            LOG.append((_kind + "-failed", _pos, args, kwargs))
+                            raise ValueError("told to fail")
+                        LOG.append((_kind, _pos, args, kwargs))
+                else:
+                    def __init__(self, target, *args, _pos=pos, _kind=kind, **kwargs):
+                        self.target = target
+                        self.pos, self.args, self.kwargs = _pos, args, kwargs
+                        if kwargs.get("fail"):
+                            LOG.append((_kind + "-failed", _pos, args, kwargs))
+                            raise ValueError("told to fail")
+                        LOG.append((_kind, _pos, args, kwargs))
+                _cache[name] = type(name, (base,), {"__init__": __init__, "pos": pos})
+            return _cache[name]
+    raise AttributeError(name)
